@@ -1,7 +1,7 @@
 (* C03 — best match: literals beat variables, independent of registration order. *)
 From Model Require Import Str Sexp Http Template Table Curly DetectRoute Jsr311 Router.
 From Spec Require Import RouteSpec RankSpec.
-From Proofs Require Import RankProofs.
+From Proofs Require Import RankProofs RankRouteProofs JsrOutcomeProofs.
 From Coq Require Import Permutation.
 
 (* Service level, CurlyRouter: the service SelectRoute works with has the greatest score
@@ -45,6 +45,40 @@ Theorem C03_longer_root_beats_prefix : C03_longer_root_beats_prefix_statement.
 Proof. exact score_longer_root_beats_prefix. Qed.
 Print Assumptions C03_longer_root_beats_prefix.
 
+(* Route level, both routers: the invoked route is never one that another eligible route of
+   the same service dominates (a literal segment where the invoked one has a variable, the
+   same shape otherwise) — whatever the registration order of the routes, and for every
+   method / Content-Type / Accept / condition combination, since eligibility (admits) covers
+   all four of detectRoute's filters.
+   CurlyRouter: for well-formed templates without a custom verb (with one, the verb counts as
+   a static segment and the claim is compared, not proved). *)
+Definition C03_curly_route_statement : Prop :=
+  forall (O : oracles) (t : table) (req : request) (w : service) (r2 : route) (ps : list (str * str)),
+    t_router t = Curly ->
+    route_request O t req = RInvoke w r2 ps ->
+    forall r1, In r1 (s_routes w) ->
+      wf_route w r1 = true -> wf_route w r2 = true ->
+      no_verbs (route_tpl w r1) = true -> no_verbs (route_tpl w r2) = true ->
+      admits O w r1 req = true ->
+      dominates (route_tpl w r1) (route_tpl w r2) = false.
+Theorem C03_curly_route : C03_curly_route_statement.
+Proof. exact curly_invoked_not_dominated. Qed.
+Print Assumptions C03_curly_route.
+
+(* RouterJSR311: under the measured premise that path_expression.go's tokens are the
+   documented reading of the service's templates (jsr_all_agree). *)
+Definition C03_jsr_route_statement : Prop :=
+  forall (O : oracles) (t : table) (req : request) (w : service) (r2 : route) (ps : list (str * str)),
+    t_router t = Jsr311 ->
+    route_request O t req = RInvoke w r2 ps ->
+    jsr_all_agree w = true ->
+    forall r1, In r1 (s_routes w) ->
+      jsr_admits O w r1 req = true ->
+      dominates (jsr_tpl (r_rel r1)) (jsr_tpl (r_rel r2)) = false.
+Theorem C03_jsr_route : C03_jsr_route_statement.
+Proof. exact jsr_invoked_not_dominated. Qed.
+Print Assumptions C03_jsr_route.
+
 (* The order-independence half at full strength — "for tables with distinct (method,
    template) pairs and roots of pairwise different shape, every permutation of the
    registration order gives every request the same outcome" — is FALSE of the faithful
@@ -73,3 +107,23 @@ Proof.
   vm_compute in H. discriminate H.
 Qed.
 Print Assumptions C03_refuted_score_tie.
+
+(* the premises of the route-level theorems hold on a concrete table, in both registration
+   orders: /u/me beats /u/{id} *)
+Example C03_route_example :
+  let me := mk 1 "GET" "/me" in let id := mk 2 "GET" "/{id}" in
+  let rq := {| rq_method := L "GET"; rq_path := L "/u/me"; rq_headers := []; rq_clen := 0 |} in
+  forall router, In router [Curly; Jsr311] ->
+  forall rs, In rs [[me; id]; [id; me]] ->
+  let w := {| s_root := L "/u"; s_routes := rs |} in
+  let t := {| t_router := router; t_services := [w] |} in
+  (exists ps, route_request O0 t rq = RInvoke w me ps)
+  /\ wf_route w me = true /\ wf_route w id = true
+  /\ no_verbs (route_tpl w me) = true /\ no_verbs (route_tpl w id) = true
+  /\ admits O0 w id rq = true /\ jsr_admits O0 w id rq = true /\ jsr_all_agree w = true
+  /\ dominates (route_tpl w me) (route_tpl w id) = true
+  /\ dominates (jsr_tpl (r_rel me)) (jsr_tpl (r_rel id)) = true.
+Proof.
+  intros me id rq router Hr rs Hrs. cbn in Hr, Hrs.
+  destruct Hr as [<-|[<-|[]]]; destruct Hrs as [<-|[<-|[]]]; vm_compute; repeat split; eexists; reflexivity.
+Qed.
